@@ -18,6 +18,9 @@ def strip_ts(msg):
 def gen_scenario(R, size="small", max_items=3):
     nitems = min(max_items, R.choice([1, 1, 2, 2, 3]))
     items = ["item%d" % i for i in range(1, nitems + 1)]
+    if R.random() < 0.12:
+        # a very long item name: its request lines take three or more reads of 1024 bytes
+        items[0] = items[0] + "_" + "x" * R.choice([1100, 2500])
     seqs = []
     for it in items:
         n = R.choice([1, 2, 3, 4, 5, 6] if size == "small" else [2, 4, 6, 8, 10, 12])
@@ -64,6 +67,8 @@ def gen_scenario(R, size="small", max_items=3):
     else:
         cuts = sorted(R.sample(range(1, len(stream)), min(len(stream) - 1, R.choice([1, 2, 5]))))
         chunks = [stream[a:b] for a, b in zip([0] + cuts, cuts + [len(stream)])]
+    # the reader asks for 1024 bytes at a time: deliver at most 1000 per chunk so that one delivery is one read
+    chunks = [c[j:j + 1000] for c in chunks for j in range(0, len(c), 1000)]
     cred = lambda: R.choice([None, None, "", "user name", "p|w%+é"])
     return {"kind": "data", "pool": R.choice([1, 1, 2, 3, 4]), "items": items, "requests": requests, "script": script,
             "ext": ext, "chunks": chunks, "probe": R.random() < 0.5, "user": cred(), "password": cred(),
